@@ -26,6 +26,9 @@ claimed['C08'] = ("All paths of the streaming parser under a symbolic read sched
 claimed['C09'] = ("All paths of Parse+Render on D and on its quoted / list-indented form (marker and width are solver variables) over the bounded inputs and multi-line templates; single-root and HTML-relation clauses on symbolic outputs.", "§C09")
 claimed['C14'] = ("All paths of Parse+Render on x and its CRLF/CR/padded/newline-terminated variants over the bounded inputs and templates; equality of outputs/positions decided by the solver.", "§C14")
 claimed['C16'] = ("All paths of stream-parsing the bounded inputs/templates and re-parsing each root block's Source alone; single block, identical tree and zero position asserted.", "§C16")
+claimed['C11'] = ("Every sequence of units up to the bound is explored (classes enumerated through the solver, bytes within a class symbolic); the rendered emphasis structure is compared with a transcription of the spec's delimiter-run algorithm.", "§C11")
+claimed['C12'] = ("All label pairs over a 12-member alphabet up to the bound, all orders/placements of competing definitions, and closure clauses over bounded inputs and link templates; resolution compared with a reference normaliser.", "§C12")
+claimed['C18'] = ("All callback policies (every Pre/Post return value and nil-ness is a solver variable) over six real trees, virtual roots and all virtual tree shapes up to the bound; the event trace is checked against a recursive reference walker.", "§C18")
 reasons = {}
 
 checks = []
